@@ -114,7 +114,7 @@ func ScannerHelpers(w *World, rel string) *report.RuleResult {
 		}
 	}
 	if fn := get("Lexer.setTokenPosition"); fn != nil {
-		st := storesTo(fn)
+		st := storesToDeep(fn) // also what helpers it calls store through the position they are handed
 		posE := "pkg/position.Pool.Get($recv.positionPool)"
 		expect("setTokenPosition", fn, st, posE+".StartPos", "$recv.ts", "the recorded start offset")
 		expect("setTokenPosition", fn, st, posE+".EndPos", "$recv.te", "the recorded end offset")
